@@ -583,7 +583,10 @@ func c14SelectBuilds(all []*c14Stim, max int, rng *rand.Rand) []*c14Stim {
 			}
 			gain := 0
 			for _, f := range feats(s) {
-				if covered[f] == 0 {
+				must := strings.HasPrefix(f, "tl2:") || strings.HasPrefix(f, "twin-")
+				if covered[f] == 0 && must {
+					gain += 100 // the TL2-origin and name-twin families are covered completely, whatever the seed
+				} else if covered[f] == 0 {
 					gain += 3
 				} else if covered[f] < 3 {
 					gain++
